@@ -1,9 +1,9 @@
 // ======================================================================================
-// units/C15/cfg_merge.rs — ControlFlowGraph::merge.
+// units/C15/cfg_merge.rs - ControlFlowGraph::merge.
 //
 // Resource bound.  Merging block s into block m bumps m's instruction counter once per instruction
 // of s (`next_instruction_index + 1`, a machine addition).  The sum of all instruction counters of a
-// graph — its *instruction budget* — never grows under merging, so "budget <= usize::MAX" is the
+// graph - its *instruction budget* - never grows under merging, so "budget <= usize::MAX" is the
 // (stated) bound under which no counter overflows.
 // ======================================================================================
 
